@@ -213,5 +213,3 @@ func (v *verifControlNilGuard) emit(x int) {
 	}
 }
 `
-
-
